@@ -195,7 +195,10 @@ func (w *World) ruleCountedTraversals(r *Report, rule string, min int, want func
 					c, isC := bo.Y.(*ssa.Const)
 					bc, bIsC := bound.(*ssa.Const)
 					ok2 = isC && c.Value != nil && c.Int64() == 1 && step == -1 && bIsC && bc.Value != nil &&
-						((op == token.GEQ && bc.Int64() == 0) || (op == token.GTR && bc.Int64() == -1))
+						((op == token.GEQ && bc.Int64() == 0) || (op == token.GTR && bc.Int64() == -1) ||
+							// `i != -1`: from size-1 (≥ -1) in steps of one the counter meets -1 exactly —
+							// the mirror image of the upward `i != size`
+							(op == token.NEQ && bc.Int64() == -1))
 					fact = fmt.Sprintf("downward traversal from %s by %d while i %s %s", init, step, op, bound)
 				default:
 					ok2 = initIsC && initC.Value != nil && initC.Int64() == 0 && step == 1 && (op == token.LSS || op == token.NEQ) && !short
